@@ -8,6 +8,9 @@ def oracle(case, out):
     in_kernel, frozen, queued, freed, alloc = set(), set(), {}, set(), set()
     ring_open = True
     for idx, (k, key, arg) in enumerate(evs):
+        if k in (17, 19) and key >= 9999999:
+            return ("event %d: the poller %s the address of operation storage that is not allocated any more "
+                    "(stale user data: use after free)" % (idx, "was armed with" if k == 17 else "delivered an event carrying"))
         if k == K["NEW"]:
             alloc.add(key)
         elif k == K["SUBMIT"]:
@@ -23,7 +26,7 @@ def oracle(case, out):
             frozen.add(key)
         elif k == K["B_END"]:
             frozen.discard(key)
-        elif k in (K["MORE"], K["SETRES"], K["CANCEL_PUSH"], K["B_START"]):
+        elif k in (K["MORE"], K["SETRES"], K["CANCEL_PUSH"], K["B_START"], 17, 19):
             if key in freed:
                 return "event %d (kind %d): operation %d used after its storage was freed" % (idx, k, key)
         elif k == K["FREE"]:
